@@ -31,7 +31,11 @@ Contract (deal ``ensure`` on a sidecar wrapper installed on ``CombinatorialSpeci
                         the same root, still equals a snapshot of its description, and still counts / generates the
                         same (n <= 8 counts, n <= 5 objects; one size more than ever computed before the expansion);
   expansion-succeeds    ``SpecificationNotFound`` only where the supplied pack really cannot specify the class (pack
-                        weakverif with a removable first letter); no other exception.
+                        weakverif with a removable first letter); no other exception.  When the exception is the
+                        forest extractor's "Can't find a rule for ..." the witness carries ``kind``:
+                        "foreign-parent-factory-rule" if every rule produced under that key came from a
+                        StrategyFactory expanding a class that is neither its parent nor one of its children (the
+                        extractor, like RecomputingDict, replays the pack only on the classes of the key), else "other".
 """
 import contextlib
 import multiprocessing
@@ -40,7 +44,9 @@ from collections import Counter
 
 import deal
 
+import comb_spec_searcher.rule_db.forest as forest_mod
 import comb_spec_searcher.specification as spec_mod
+from comb_spec_searcher import CombinatorialSpecificationSearcher
 from comb_spec_searcher import StrategyFactory, StrategyPack, VerificationStrategy
 from comb_spec_searcher.exception import InvalidOperationError, SpecificationNotFound, StrategyDoesNotApply
 from comb_spec_searcher.strategies.rule import EquivalencePathRule, ReverseRule, VerificationRule
@@ -67,6 +73,7 @@ NMAX = 7
 COUNTS = Counter()
 _LAST = {}
 _real = {}
+_ORIGINS = {}  # (parent key, children keys) -> ["foreign-factory" | "ordinary", ...] for every rule the searchers produced
 TIMEOUT = 60
 
 
@@ -105,7 +112,8 @@ class PickyLongPrefixVerified(LongPrefixVerified):
 
 class PrependProductFactory(StrategyFactory):
     """For a class C with a one-letter prefix p and another letter x: the (valid) rule class(xp) = {x} x C, when the
-    prefix factorisation of class(xp) is exactly that.  C is never a parent."""
+    prefix factorisation of class(xp) is exactly that, preceded by the expansion rule of class(x).  C is never a
+    parent."""
 
     def __call__(self, comb_class):
         if comb_class.just_prefix or comb_class.is_empty() or len(comb_class.prefix) != 1:
@@ -117,6 +125,9 @@ class PrependProductFactory(StrategyFactory):
             longer = comb_class.derive(prefix=letter + comb_class.prefix)
             children = front.decomposition_function(longer)
             if children is not None and children[1] == comb_class:
+                # the expansion of class(x) makes class(xp) known to the searcher as a CHILD (children are the
+                # classes the searcher tries to verify)
+                yield ExpansionStrategy()(comb_class.derive(prefix=letter))
                 yield front(longer)
 
     def __str__(self):
@@ -251,7 +262,11 @@ def _closed(spec, start):
 def measure(spec, nmax, omax):
     terms = [sorted(spec.get_terms(n).items()) for n in range(nmax + 1)]
     counts = [spec.count_objects_of_size(n) for n in range(nmax + 1)] if not spec.root.extra_parameters else None
-    objects = [sorted(map(str, spec.generate_objects_of_size(n))) for n in range(omax + 1)]
+    try:
+        objects = [sorted((k, sorted(map(str, v))) for k, v in spec.get_objects(n).items() if v)
+                   for n in range(omax + 1)]
+    except NotImplementedError:  # reverse rules (Complement / Quotient) do not generate objects
+        objects = "not implemented"
     return terms, counts, objects
 
 
@@ -358,11 +373,40 @@ def installed():
         return _real["expand_comb_class"](self, comb_class, pack, reverse, continue_expanding_verified,
                                           max_expansion_time)
 
+    # observers (no contract): which class was being expanded when a rule was produced, and which rule key the forest
+    # extractor fails to recompute -- used only to label a failure with witness["kind"]
+    C = CombinatorialSpecificationSearcher
+    X = forest_mod.ForestRuleExtractor
+    _real.update(expand=C._expand_class_with_strategy, find_rule=X._find_rule)
+
+    def _expand_class_with_strategy(self, comb_class, strategy_generator, label=None, initial=False):
+        from_factory = isinstance(strategy_generator, StrategyFactory)
+        for triple in _real["expand"](self, comb_class, strategy_generator, label, initial):
+            rule = triple[2]
+            members = {rule.comb_class.key()} | {c.key() for c in rule.children}
+            foreign = from_factory and comb_class.key() not in members
+            _ORIGINS.setdefault((rule.comb_class.key(), tuple(c.key() for c in rule.children)), []).append(
+                "foreign-factory" if foreign else "ordinary")
+            yield triple
+
+    def _find_rule(self, rule_key):
+        try:
+            return _real["find_rule"](self, rule_key)
+        except RuntimeError:
+            key = (self.classdb.get_class(rule_key.parent).key(),
+                   tuple(self.classdb.get_class(l).key() for l in rule_key.children))
+            origins = _ORIGINS.get(key, [])
+            _LAST["find_rule_kind"] = ("foreign-parent-factory-rule"
+                                       if origins and all(o == "foreign-factory" for o in origins) else "other")
+            raise
+
     S.expand_verified, S.expand_comb_class = expand_verified, expand_comb_class
+    C._expand_class_with_strategy, X._find_rule = _expand_class_with_strategy, _find_rule
     try:
         yield
     finally:
         S.expand_verified, S.expand_comb_class = _real["expand_verified"], _real["expand_comb_class"]
+        C._expand_class_with_strategy, X._find_rule = _real["expand"], _real["find_rule"]
 
 
 # --------------------------------------------------------------------------------------------------------------
@@ -384,9 +428,13 @@ def run_case(case):
     start = class_from_repr(start_repr)
     witness = {"pack": pack_name, "start": start_repr, "ruledb": db}
     _LAST.clear()
+    _ORIGINS.clear()
 
     def viol(check, what):
-        return {"check": check, "witness": witness, "what": what[:600]}
+        w = dict(witness)
+        if _LAST.get("find_rule_kind"):
+            w["kind"] = _LAST["find_rule_kind"]
+        return {"check": check, "witness": w, "what": what[:600]}
 
     old = signal.signal(signal.SIGALRM, _alarm)
     signal.alarm(TIMEOUT)
@@ -401,7 +449,10 @@ def run_case(case):
         problems = spec_check(spec, start, NMAX)
         if problems:
             return None, {"outcome": "original-invalid (not C19): " + problems[0]}
-        list(spec.generate_objects_of_size(3))
+        try:
+            spec.get_objects(3)
+        except NotImplementedError:
+            pass
         info = {
             "outcome": "expanded", "verified": nver,
             "root_verified": expandable(spec.rules_dict[spec.root]),
@@ -517,12 +568,14 @@ def run(tier, seed):
 
 
 def _dedupe(viols):
-    viols = sorted(viols, key=lambda v: (v["check"], len(v["witness"]["start"]), str(v["witness"])))
+    viols = sorted(viols, key=lambda v: (v["check"], v["witness"].get("kind", ""), len(v["witness"]["start"]),
+                                         str(v["witness"])))
     out, per = [], Counter()
     for v in viols:
-        if per[v["check"]] >= 3:
+        key = (v["check"], v["witness"].get("kind"))
+        if per[key] >= 3:
             continue
-        per[v["check"]] += 1
+        per[key] += 1
         out.append(v)
     return out[:20]
 
